@@ -1,5 +1,8 @@
 //! Serialization and Deserialization implementation
 
+#[cfg(feature = "verif-hooks")]
+use crate::verif_hooks::{HashMap, HashSet};
+#[cfg(not(feature = "verif-hooks"))]
 use std::collections::{HashMap, HashSet};
 
 use ::serde::{Deserialize, Deserializer, Serialize, Serializer};
